@@ -5,6 +5,7 @@ For each: scratch copy of /repo HEAD -> demo passes without patch; apply patch -
 (default + purego) pass; demo fails with patch. Only then kept."""
 import json, os, re, shutil, subprocess, sys, tempfile
 prop, wt = sys.argv[1], sys.argv[2]
+sfx = sys.argv[3] if len(sys.argv) > 3 else 's'
 here = os.path.dirname(os.path.dirname(os.path.abspath(__file__)))
 env = dict(os.environ, GOFLAGS='-mod=mod', GOPROXY='off', GOSUMDB='off', GOTOOLCHAIN='local')
 env.pop('GOWORK', None)
@@ -47,7 +48,7 @@ for i in sorted(os.listdir(outdir)):
         if not ok:
             print((o0 if rc0 else '') + (ob if rcb else '') + (ot if rct else '')[-600:] + (op if rcp else '')[-300:] + (o1[-300:] if rc1 == 0 else ''))
             continue
-        sid = f"{prop}-s{i}"
+        sid = f"{prop}-{sfx}{i}"
         sd = os.path.join(here, 'seeded', sid)
         os.makedirs(sd, exist_ok=True)
         shutil.copy(patch, os.path.join(sd, 'patch.diff'))
